@@ -138,7 +138,7 @@ func (w *c10World) prepare(c *core.Ctx, id string) {
 				w.discard = tag + " run did not produce " + f.path
 				return nil
 			}
-			out[f.path] = string(b)
+			out[f.path] = strings.ReplaceAll(string(b), root, world.RootPlaceholder) // location-independent
 		}
 		return out
 	}
